@@ -78,6 +78,8 @@ def oracle(ck, extended):
     rng = ck.rng
     import pywt
     q = ck.tier == 'quick'
+    # deterministic witness of the recorded finding (length-6 filters, bands of length 1, periodization)
+    rt.guard(ck, oracle_inv, ck, 1, 2, (np.array([1., 2., 3., 4., -1., 2.]), np.array([2., -1., 3., 1., 1., -2.])), np.array([[[3.]]]), [np.array([[[-2.]]])])
     n_int = (160 if q else 1500) * (3 if extended else 1)
     for it in range(n_int):
         L = 2 * rng.randint(1, 6 if q else 10)
